@@ -46,6 +46,7 @@ CASES = [
     (('C03',), 'agg:bigint:min', 'select MIN(a1)', [[str(BIG)], [str(BIG + 2)]], None, None, None, ('ok', [[BIG]])),
     (('C03',), 'agg:bigint:sum', 'select SUM(a1)', [[str(BIG)], ['0']], None, None, None, ('ok', [[BIG]])),
     (('C03',), 'agg:bigint:median', 'select MEDIAN(a1)', [[str(BIG)]], None, None, None, ('ok', [[BIG]])),
+    (('C03',), 'agg:bigint:variance', 'select VARIANCE(a1)', [[str(BIG)], [str(BIG + 2)]], None, None, None, ('ok', [[1.0]])),
     (('C03', 'C14'), 'agg:nonconst:limit', 'select a1, a2, COUNT(*) group by a1 limit 1', [['ant', '1'], ['car', '2'], ['dog', '3'], ['dog', '4']], None, None, None, ('error', 'RbqlRuntimeError')),
     (('C03', 'C14'), 'agg:nonconst:top', 'select top 1 a1, a2 group by a1', [['ant', '1'], ['dog', '3'], ['dog', '4']], None, None, None, ('error', 'RbqlRuntimeError')),
     (('C03',), 'agg:any-value:first', 'select ANY_VALUE(a1), MAX(a2)', [['p', '1'], ['q', '5']], None, None, None, ('ok', [['p', 5]])),
@@ -171,3 +172,15 @@ def replay_extra(case):
             ok, got = _run_case(c)
             return {'fails': not ok, 'query': c[2], 'expected': list(c[7]), 'observed': list(got)}
     return {'fails': True, 'error': 'unknown case ' + key}
+
+
+# The literal-opacity enumeration written for C08 (109-atom alphabet of keywords / metacharacters x 4 quote modes x 13 templates covering
+# SELECT, WHERE, UPDATE, ORDER BY, GROUP BY, JOIN ...) also decides part of C01 / C05 / C09: the projected values, the matching records and
+# the assigned fields must not depend on what a literal contains.
+@job('C01', 'C05', 'C09')
+def literal_opacity_shared(prop, tier, seed):
+    from . import jobs_c08
+    r = jobs_c08.literal_opacity('C08', 'quick', seed)       # the quick domain in both tiers: the thorough one belongs to C08
+    r['job'] = 'literal_opacity'
+    r['rule'] = 'shared with C08: ' + r.get('rule', '')
+    return r
